@@ -38,6 +38,8 @@ ObsLen(x) == Size(x)
 
 (* ---- operations ------------------------------------------------------ *)
 ReplaceResult(x, p, k) == TreeReplaceAt(x, p, Lib[k])
+(* replace_path(..., retain_id=True): the new subtree takes over the identity of the node it replaces *)
+ReplaceKeepResult(x, p, k) == TreeReplaceAt(x, p, [Lib[k] EXCEPT !.id = Sub(x, p).id])
 (* substitute: every mapped node that is still present is replaced; nested *)
 (* targets are not generated                                               *)
 RECURSIVE SubstResult(_, _)
@@ -76,6 +78,10 @@ ReplacePath(p, k, os) ==
   /\ Fresh(k)
   /\ t' = ReplaceResult(t, p, k) /\ used' = used \cup {k}
   /\ hist' = Append(hist, [op |-> "ReplacePath", p |-> p, k |-> k, obs |-> os])
+ReplacePathKeepId(p, k, os) ==
+  /\ Fresh(k)
+  /\ t' = ReplaceKeepResult(t, p, k) /\ used' = used \cup {k}
+  /\ hist' = Append(hist, [op |-> "ReplacePathKeepId", p |-> p, k |-> k, obs |-> os])
 Substitute(id, k, os) ==
   /\ Fresh(k)
   /\ t' = SubstResult(t, << <<id, k>> >>) /\ used' = used \cup {k}
@@ -112,6 +118,7 @@ Next ==
   /\ UNCHANGED <<dice, chain>>
   /\ \E os \in {AllObs} :
        \/ \E p \in PathsOf(t), k \in 1..Len(Lib) : ReplacePath(p, k, os)
+       \/ \E p \in PathsOf(t), k \in 1..Len(Lib) : ReplacePathKeepId(p, k, os)
        \/ \E id \in Ids(t), k \in 1..Len(Lib) : Substitute(id, k, os)
        \/ \E id1, id2 \in Ids(t), k1, k2 \in 1..Len(Lib) : Substitute2(id1, k1, id2, k2, os)
        \/ \E c \in 0..2 : Expand(c, os)
@@ -147,7 +154,8 @@ RNext ==
          canExp == OpenPaths(t) # {} /\ Size(t) <= 60 /\ \A q \in OpenPaths(t) : Sub(t, q).n \in DOMAIN G
      IN IF WithSerialize /\ dice.kind \in {3, 6, 11} THEN SerializeOp(SerKinds[(dice.c % 3) + 1], os)
         ELSE IF WithSerialize /\ dice.kind \in {4, 12} /\ ValidTree(G, t) THEN TouchKPathsOp(2 + (dice.c % 2), dice.d % 2 = 0, os)
-        ELSE IF dice.kind \in 1..5 /\ canRepl THEN ReplacePath(p, k, os)
+        ELSE IF dice.kind \in 1..3 /\ canRepl THEN ReplacePath(p, k, os)
+        ELSE IF dice.kind \in 4..5 /\ canRepl THEN ReplacePathKeepId(p, k, os)
         ELSE IF dice.kind \in 6..7 /\ canRepl THEN Substitute(id, k, os)
         ELSE IF dice.kind \in 8..9 /\ canSub2 THEN Substitute2(id, k, id2, k2, os)
         ELSE IF dice.kind = 10 /\ canExp /\ Len(hist) >= 2 THEN Expand(dice.c % 3, os)
